@@ -194,7 +194,9 @@ static vf::Verdicts eval(const Spec &s, vf::Ctx &ctx) {
     return out;
   }
   double b = params.global.exportBlending;
-  double tol = 0.5 + 0.5 * (std::fabs(1 - b) + std::fabs(b)) + 0.01;
+  // "up to rounding": the returned coordinate and the two exposed ones are each some rounding of a real value to an adjacent
+  // integer (nearest, or directed - the property does not say which), i.e. each is off by less than one unit
+  double tol = 1.0 + 1.0 * (std::fabs(1 - b) + std::fabs(b)) + 0.01;
   for (int i = 0; i < n; ++i) {
     if (s.cells[i].fixed) continue;
     if (std::llabs((long long)c.cellX()[i]) >= (1LL << 28) || std::llabs((long long)c.cellY()[i]) >= (1LL << 28))
